@@ -11,8 +11,10 @@ ENTRY = {
             'independently, 6..13 nodes must raise UnsupportedDegree; full reduction: k-fold elevations (k=0..3) of genuine nets at '
             'relative distance 0 / 2^-40 / 2^-20 from the elevated subspace; Triangle.elevate degrees 1..12 (exact formula, corners '
             'bitwise); non-trivial = net not all zero; distinct by hash of exact inputs',
-    'partial': ['full_reduce_elevate proved for one elevation step per call (k-fold follows by iteration of the same lemma); '
-                'Triangle.elevate is checked against the exact specification only until the triangle model is linked'],
+    'partial': [
+                'full_reduce_elevate proved for one elevation step per call (k-fold follows by iteration of the same lemma)',
+                'Triangle.elevate: proved for every degree (Props/C08Triangle): length, the three corners are copied exactly (raw, notation classes only - the statement behind the repaired defect F-I), the closed formula of every entry, and tri_elevate_same_map: the elevated net defines the same map (l1+l2+l3) * B(l) for all barycentric weights; tied to the code by the triangle elevation op of the driver',
+    ],
     'trusted_base': ['modelled not verified: elevate_nodes / reduce_pseudo_inverse / projection_error / maybe_reduce / full_reduce in '
                      'curve_helpers.py and curve.f90; Curve.elevate / Curve.reduce_ / Triangle.elevate glue'],
     'assumptions': COMMON_ASSUME,
